@@ -209,6 +209,20 @@ func (s *ldapService) SetChannel(c pushers.Channel) {
 }
 
 func (s *ldapService) Handle(ctx context.Context, conn net.Conn) error {
+	// connection state (reader, login, tls) lives in a copy of the service
+	// that belongs to this connection only
+	sess := &ldapService{
+		Server: s.Server,
+		c:      s.c,
+	}
+
+	sess.Handlers = make([]requestHandler, 0, 4)
+	sess.setHandlers()
+
+	return sess.serve(ctx, conn)
+}
+
+func (s *ldapService) serve(ctx context.Context, conn net.Conn) error {
 	s.wantTLS = false
 
 	s.login = "" // set the anonymous authstate
